@@ -593,7 +593,8 @@ func ruleOpenLog(r *Run) {
 			n++
 			args := c.Common().Args
 			sn, en := rootName(args[3]), rootName(args[4])
-			if sn != "start" || en != "end" {
+			// SelectLogs(q, ctx, start, end, params): positions 2 and 3
+			if len(sl.Params) < 4 || originValue(args[3]) != ssa.Value(sl.Params[2]) || originValue(args[4]) != ssa.Value(sl.Params[3]) {
 				bad = true
 				oc.Fail(r.pos(c.Pos()), "openLog(.., %s, %s): expected (start, end)", sn, en)
 			}
